@@ -39,6 +39,9 @@ def demo_dir(seed, prop):
         path = re.sub(r"[^/]*_test\.go$", "", path)
         if not path.startswith("/"):
             return path.strip("/") or "."
+    m = re.match(r"//\s*dir:\s*(\S+)", src)
+    if m:
+        return m.group(1).strip("/") or "."
     for line in src.splitlines()[:15]:
         m = re.search(r"((?:cmd/hranoprovod-cli/internal/|resolver|parser|filter)\S*)", line)
         if m and line.strip().startswith("//"):
